@@ -19,6 +19,11 @@ inductive DecimalError
   | maxNFracDigitsExceeded | internalOverflow | infiniteValue | notANumber | divisionByZero
 deriving Repr, DecidableEq
 
+/-- `fpdec::TryFromDecimalError` -/
+inductive TryFromDecimalError
+  | notAnIntValue | valueOutOfRange
+deriving Repr, DecidableEq
+
 /-- truncation to an unsigned type of the given width (`as uN`, `wrapping_*`, bits shifted out by `<<`) -/
 def wrapU (bits : Nat) (x : Nat) : Nat := x % 2 ^ bits
 
